@@ -11,8 +11,8 @@ _os.environ['FALCON_CUSTOM_HTTP_METHODS'] = ','.join(CUSTOM_METHODS)
 
 PROP = 'C03'
 LEAN_MODULES = ['FalconModel.PipelineProofs', 'FalconModel.PipelineSpec', 'FalconModel.PipelineErrProofs', 'FalconModel.HooksLifespanProofs',
-                'FalconModel.PipelineHooksProofs']
-DRIVERS = ['pldriver', 'hkdriver', 'phdriver']
+                'FalconModel.PipelineHooksProofs', 'FalconModel.PipelineRegProofs', 'FalconModel.PrepareMwProofs']
+DRIVERS = ['pldriver', 'hkdriver', 'phdriver', 'pgdriver']
 THEOREMS = [
     # falcon/app.py + falcon/asgi/app.py __call__, falcon/app_helpers.py prepare_middleware (model Pl.run)
     'Pl.respLoop_idx', 'Pl.reqIndep_noResp', 'Pl.rsrcLoop_noResp', 'Pl.reqDep_noResp', 'Pl.reqDep_stack', 'Pl.reached_sub',
@@ -45,6 +45,16 @@ THEOREMS = [
     'Ph.escape_iff', 'Ph.net_raise_iff', 'Ph.responder_label', 'Ph.calls_eq_spec', 'Ph.calls_prefix_spec', 'Ph.calls_expand',
     'Ph.independent_resp_once', 'Ph.dependent_resp_stack', 'Ph.succeeded_iff_nothing_raised', 'Ph.run_flags', 'Ph.FlagsOk_expand',
     'Ph.handler_called_once_per_raise_at_its_site', 'Ph.WH_cut', 'Ph.WH_expand_block',
+    # the REGISTRATION TABLE of error handlers as an input (model Pg, FalconModel/PipelineReg.lean): _error_handlers / add_error_handler /
+    # _find_error_handler / _handle_exception at the level of exception classes, abstracted to the alphabet of Pe / Ph
+    'Pg.one_lookup', 'Pg.handler_called_at_most_once', 'Pg.status_raised_by_handler_is_composed', 'Pg.http_raised_by_handler_is_composed',
+    'Pg.reraised_status_is_composed', 'Pg.reraised_http_is_composed', 'Pg.other_raised_by_handler_propagates',
+    'Pg.find_http', 'Pg.find_status', 'Pg.find_app_own', 'Pg.find_app_plain', 'Pg.find_baseOnly', 'Pg.exception_handler_not_for_http',
+    'Pg.handle_resolve', 'Pg.handle_resolve_ph', 'Pg.resolve_default', 'Pg.escapes_iff',
+    'Pg.run_trace', 'Pg.run_outcome', 'Pg.run_handler_once_per_raise', 'Pg.run_escape_iff', 'Pg.run_handler_count',
+    # falcon/app_helpers.py prepare_middleware (model Pm, FalconModel/PrepareMw.lean): how the three HTTP methods of a component are found
+    # (per method: *_async or plain), the compatibility checks, the three stacks
+    'Pm.lookup_async_wins', 'Pm.lookup_plain_when_no_async', 'Pm.lookup_wsgi_plain_only', 'Pm.lookup_isSome', 'Pm.prepare_ok', 'Pm.prepare_ok_iff',
 ]
 STATEMENTS = {
     'Pl.run_eq_spec': 'for every stack of components, every assignment of return / complete / raise to every method and to the responder, every routing outcome (route, 405, sink, 404) and both middleware modes, the whole sequence of calls the framework makes - including the (resource, req_succeeded) arguments of every process_response - equals specTrace: request methods top-down until one completes or raises; resource methods only after a route match when nothing completed or raised; the responder only if nothing completed or raised; then process_response bottom-up once each (dependent mode: only the components reached), the success flag true iff nothing raised so far',
@@ -87,10 +97,23 @@ STATEMENTS = {
     'Ph.independent_resp_once': 'independent mode with hooks: unless an exception escapes, every component defining process_response has it called exactly once, in reverse registration order, whatever hooks and responder do',
     'Ph.dependent_resp_stack': 'dependent mode with hooks: unless an exception escapes, the process_response calls are exactly the components before the first process_request that ran and raised, once each, in reverse order',
     'Ph.succeeded_iff_nothing_raised': 'with hooks: the req_succeeded argument of a process_response call at any position is true iff no earlier call of the trace raised - a before hook, the responder or an after hook included',
+    'Pg.one_lookup': '_handle_exception, for every registration table (the application\'s own handlers for HTTPStatus / HTTPError / Exception on top of falcon\'s three, a handler for the raised class itself) and every raised class: the handlers it calls are exactly the ONE that _find_error_handler returns (none if it returns None) - whatever that handler does',
+    'Pg.status_raised_by_handler_is_composed': 'if the handler found raises HTTPStatus, that handler is the only one called and the outcome is the composed status response - also when the application registered its own handler for HTTPStatus (or HTTPError, or Exception): what a handler raises is never given to the table again',
+    'Pg.reraised_status_is_composed': 'a handler registered for HTTPStatus that re-raises what it got (`raise ex`) is called once; the same HTTPStatus is composed',
+    'Pg.other_raised_by_handler_propagates': 'anything else a handler raises leaves __call__',
+    'Pg.handle_resolve': '_handle_exception at the level of classes + registration table is Pe.handle of the resolved exception (Pg.resolve: the abstraction to the alphabet of Pe / Ph): the same number of handler invocations (0 or 1), the same composed status / escape - so Pg.run := Ph.run of the resolved configuration, and every Pe / Ph / Pl theorem holds for every registration table',
+    'Pg.resolve_default': 'with nothing registered on top of the defaults the abstraction is the alphabet Pe was written for',
+    'Pg.exception_handler_not_for_http': 'a handler registered for Exception is never the one found for an HTTPError or an HTTPStatus (most specific class first)',
+    'Pg.run_handler_once_per_raise': 'for every registration table: the trace is its calls with, right after each call, the one handler invocation that belongs to what that call raised - no handler is invoked for what a handler raised',
+    'Pm.prepare_ok': 'prepare_middleware, when every component is accepted: each of the three stacks is a function of the attributes of ITS method alone, component by component - the resource stack lists in registration order the components that have process_resource in some accepted spelling (ASGI: process_resource_async, else a plain coroutine process_resource; WSGI: the plain one), whatever spelling the same component uses for its other methods; likewise the request stack (dependent mode: the (request, response) pairs) and the response stack (independent mode: reverse registration order)',
+    'Pm.prepare_ok_iff': 'construction succeeds iff every component is accepted: no method found in a spelling of the wrong kind (ASGI: a sync function, WSGI: a coroutine function) and at least one HTTP method - or, on ASGI, a lifespan / WebSocket method',
+    'Pm.lookup_async_wins': 'ASGI: when a component has both process_x_async and process_x the *_async one is used, whatever the plain one is',
+    'Pm.lookup_isSome': 'ASGI: a method is on its stack iff the component has it in EITHER spelling; WSGI: iff it has the plain one',
     'Ph.handler_called_once_per_raise_at_its_site': 'with hooks: the trace is its calls with, right after each call, what _handle_exception invokes for what that call raised - one handler event carrying that error and that very call (hook k, responder, middleware method) as site, nothing if it did not raise or no handler exists',
 }
 TRUSTED = [
-    'inspect-based method discovery of falcon.util.get_bound_method / hooks (exercised, not modelled)',
+    'getattr-based method discovery of falcon.util.get_bound_method (an attribute is a bound coroutine / sync function or absent: the input of Pm.run) and of falcon.hooks (exercised, not modelled)',
+    'Pg.resolve is the abstraction from (raised class, registration table) to the alphabet of Pe / Ph; it is proved exact for _handle_exception (Pg.handle_resolve) and the Pg.run correspondence compares the full trace, naming WHICH registered handler is invoked',
     'the mapping of the harness\'s raising actions to the single `raise_` action of Pl.run in the first correspondence (proved sound for the model side: Pe.run_refines_Pl); the second correspondence (Pe.run) uses the full alphabet',
     'falcon\'s own default error handlers and its 404/405 responders cannot be observed through the public API: the model\'s events for them are not compared, their effect is compared through the final status (and by C04)',
     'in the Pl.run / Pe.run correspondences the hook-wrapped responder is one responder action (what its first raising part does, else complete, else return) - proved sound: that is Ph.flatten, and Ph.hooks_refine_pe relates the two runs; the Ph.run correspondence compares the full trace with every hook event',
@@ -99,11 +122,27 @@ TRUSTED = [
 ASSUMPTIONS = [
     'an exception that no handler takes - a BaseException-only raise (not caught by falcon by design), or whatever an error handler raises other than HTTPError/HTTPStatus (falcon documents only these as raisable from handlers) - propagates to the server and ends the sequence: the "once each" part of the property is read as "up to that point" (Pe.run_prefix_Pl, Pe.unhandled_propagates_and_stops)',
     'components, hooks and responders either return, complete or raise (not complete-then-raise); error handlers may set resp.complete (Ph.run)',
+    'which error handlers execute resp.complete = True is chosen per handler BEHAVIOUR (sets / raises HTTPError / raises HTTPStatus / raises a plain exception - the alphabet of Ph.handlerCompletes): a handler registered for HTTPStatus / HTTPError / Exception '
+    'does so iff the application-class handler of the same behaviour does; a handler re-raising an HTTPError / HTTPStatus never does (it resolves to the framework composing that very exception), re-raising anything else counts as raising a plain exception',
+    'an HTTPError / HTTPStatus re-raised by the handler that was called for it is "an HTTPError / HTTPStatus raised by a handler": composed (docs/api/app.rst add_error_handler; what the unchanged tree does on both stacks and what tests/test_error_handlers.py::test_catch_http_no_route_error relies on)',
     'hooks are applied to resource responders (falcon.before/after do not apply to sinks)',
     'FALCON_CUSTOM_HTTP_METHODS=PURGE,SUBSCRIBE in every worker (set by harness/props/c03.py before falcon is imported; falcon reads it at import time); if falcon does not list them in COMBINED_METHODS the run says so in its notes and leaves custom methods out',
     'WebSocket handshakes: components, hooks and the responder either return or raise (HTTPForbidden, or an application error taken by falcon\'s default handler); the responder accepts the connection and returns',
 ]
-RULE = ('stacks of 0..5 middleware components, each implementing any non-empty subset of process_request/process_resource/process_response '
+RULE = ('[two dimensions added after seeds C03_11 / C03_12: (a) the SPELLING of each HTTP middleware method is chosen PER METHOD inside one component (case key `spell`; `variant` was one spelling per component): '
+        'ASGI {absent, plain coroutine, *_async next to a sync function of the plain name, *_async alone, *_async next to a plain coroutine - documented: the *_async one is the ASGI version}, '
+        'WSGI {absent, absent but with an *_async version (ignored on WSGI), plain sync, plain sync next to an *_async coroutine}; enumerated: every combination over the three methods for a single component '
+        '(124 ASGI + 56 WSGI), alone and between two full components x both modes x {route, unrouted} x fault-free and a raise at each of its methods; random: 35 % of the components of random stacks; '
+        'and falcon.app_helpers.prepare_middleware itself on generated component objects (each of the six attributes absent / coroutine function / sync function - the rejected combinations included - '
+        'with or without a lifespan method: every single component x ASGI/WSGI, random stacks of 1-4) compared with the model Pm.run; '
+        '(b) the REGISTRATION TABLE of error handlers is an input (case key `handlers`): the application\'s own handlers registered for falcon.HTTPStatus / falcon.HTTPError / Exception themselves (replacing falcon\'s '
+        'default ones), each {sets the response, raises a new HTTPError, raises a new HTTPStatus, re-raises what it got, raises a plain exception}; a new application class whose own handler re-raises (app_hr); '
+        'falcon\'s own 404 / 405 go through the table like every HTTPError; enumerated: all 216 tables x what is raised {HTTPError, HTTPStatus, application class without handler, the five application classes with own handlers, '
+        'falcon\'s 404, falcon\'s 405, nothing} x WSGI+ASGI between two full components, the raising site (process_request / process_resource of either component, responder, before hook, after hook, process_response of either) '
+        'and the mode rotated (thorough: every site x both modes); random: 35 % of the random cases carry a table of 1-3 entries. The oracle reads the documented discipline: the handler registered for the most specific '
+        'class of what was RAISED INTO THE FRAMEWORK is called once; what a handler raises is composed (HTTPError / HTTPStatus) or propagates and is never looked up in the table; both stacks. The model Pg.run '
+        '(classes + table, resolved to Ph.run) predicts every call, WHICH handler is invoked at which site, status / escape, resp.complete] '
+        'stacks of 0..5 middleware components, each implementing any non-empty subset of process_request/process_resource/process_response '
         '(ASGI: plain coroutine names, *_async next to a sync decoy, or *_async alone; WSGI: sync names, with or without an async *_async decoy) '
         'AND any subset of the lifespan / WebSocket methods process_startup, process_shutdown, process_request_ws, process_resource_ws on the same component '
         '(the shape of a component is the set of all seven methods; on WSGI the four are inert attributes, sync or async; on ASGI also components with none of the three HTTP methods, '
@@ -136,21 +175,36 @@ PARTIAL = ('Proved in Lean: the whole call trace of the model equals the documen
            '(standard / WebDAV / custom) and the lifespan/WebSocket methods of a component cannot be expressed in them - the same model line is sent whatever they are, so the correspondence demands that the real trace does not depend on them, '
            'and the oracle judges them. The WebSocket handshake path (_handle_websocket: process_request_ws / process_resource_ws / on_websocket) is not modelled in Lean: it is oracle-only, except that the hook part of its trace is compared with Hk.wrap. '
            'Not modelled in Lean: what happens after the response loop (body rendering and its own except block: C05); callees that set resp.complete and then raise; hooks on sinks (falcon does not support them). '
-           'Default-handler invocations are model events that the correspondence can only check through the final status.')
+           'Default-handler invocations are model events that the correspondence can only check through the final status. '
+           'The registration table of error handlers is modelled at the level of exception classes (Pg: _error_handlers with the three defaults overwritten by the application, the MRO walk of _find_error_handler, '
+           '_handle_exception with one lookup and the two except clauses) and proved to abstract exactly to the alphabet of Pe / Ph (Pg.handle_resolve); Pg.run is Ph.run of the resolved configuration, falcon\'s own 404 / 405 responder '
+           'being put into the responder slot (of a hook-less route / of a sink) so that what it raises is resolved like every other raise - that relabelling is tied by the correspondence only (cases with the default table go to both Ph.run and Pg.run). '
+           'Handlers registered for BaseException or for several classes at once are not generated. prepare_middleware is modelled (Pm) with its lookups, checks and stacks; the proof that the stacks Pm builds are the ones Pe.tries assumes is by reading (Pm.prepare_ok states them in the same form).')
 JOBS = {'quick': 12, 'thorough': 16}
 
-RAISES = {'http': 403, 'status': 202, 'app_h': 418, 'app_d': 500, 'app_hh': 409, 'app_hs': 299, 'app_he': None, 'base': None}
+RAISES = {'http': 403, 'status': 202, 'app_h': 418, 'app_d': 500, 'app_hh': 409, 'app_hs': 299, 'app_he': None, 'base': None, 'app_hr': None}
 CUSTOM = ('app_h', 'app_hh', 'app_hs', 'app_he')        # a custom (generated) error handler runs for these
+CUSTOM_ALL = CUSTOM + ('app_hr',)                       # ... and for this one: the handler registered for the class re-raises what it got
 ESCAPING = ('app_he', 'base')                           # the exception leaves __call__: handler raised a plain exception / no handler at all
 FAULTS = ['complete', 'http', 'status', 'app_h', 'app_d', 'app_hh', 'app_hs', 'app_he', 'base']
+FAULTS_T = FAULTS + ['app_hr']                          # (app_hr is in the alphabet of pgdriver only)
 LETTER = {'ret': 'r', 'complete': 'c', None: '-', 'http': 'e', 'status': 's', 'app_h': 'h', 'app_d': 'd', 'app_hh': 'H', 'app_hs': 'S',
-          'app_he': 'P', 'base': 'n'}                   # the action alphabet of Pe.run (pldriver `runx`)
+          'app_he': 'P', 'base': 'n', 'app_hr': 'R'}    # the action alphabet of Pe.run (pldriver `runx`; R: pgdriver `runt` only)
+# THE REGISTRATION TABLE (case key `handlers`): handlers the application registered for falcon.HTTPStatus ('S'), falcon.HTTPError ('E') and
+# Exception ('X') themselves - replacing falcon's default ones - and what each does once called
+TABLE_KEYS = ('S', 'E', 'X')
+BEHS = ['sets', 'http', 'status', 'same', 'plain']      # sets the response / raises a new HTTPError / a new HTTPStatus / re-raises what it got / raises a plain exception
+BEH_LETTER = {'sets': 's', 'http': 'H', 'status': 'S', 'same': 'R', 'plain': 'P'}
+OWN_BEH = {'app_h': 'sets', 'app_hh': 'http', 'app_hs': 'status', 'app_he': 'plain', 'app_hr': 'same'}   # the handlers registered for the application's own classes
+BEH_STATUS = {'sets': 418, 'http': 409, 'status': 299}  # the status a handler of that behaviour leaves (set / carried by what it raises)
+RAISED_STATUS = {'http': 403, 'status': 202, 'notfound': 404, 'nomethod': 405, 'app_d': 500}   # the status of what is raised, when falcon's own handler takes it
 
 
 class _BaseOnly(BaseException):
     """raised by the 'base' action: derives from BaseException only, so no error handler exists for it (not even falcon's
     default one for Exception) and `except Exception` in __call__ does not catch it."""
 METHS = ('req', 'rsrc', 'resp')
+PNAME = {'req': 'process_request', 'rsrc': 'process_resource', 'resp': 'process_response'}
 # the other methods a middleware component may define (ASGI lifespan + WebSocket); the SHAPE of a component is the set of all seven.
 # On WSGI they are inert extra attributes.  c['extras'] maps name -> action (only the *_ws ones ever act, and only in WebSocket cases).
 EXTRAS = ('startup', 'shutdown', 'request_ws', 'resource_ws')
@@ -169,23 +223,50 @@ class _Escape(Exception):
     pass
 
 
+def dispatch(case, a):
+    """The documented error handling for ONE raise (docs/api/app.rst add_error_handler, docs/api/middleware.rst): the handler registered for
+    the most specific class of the raised exception is called, once; "a handler can raise an instance of HTTPError or HTTPStatus to communicate
+    information about the issue to the client" - the framework uses that exception to update the response; anything else it raises goes to
+    the server.  What a handler raises is not a raise of the application into the framework: no handler is looked up for it.
+    a: the action (what is raised; 'notfound' / 'nomethod' = falcon's own 404 / 405).  Returns (the application's handler that is called |
+    None = one of falcon's three / none at all, the status the server sees | None = the exception propagates)."""
+    table = case.get('handlers') or {}
+    if a == 'base':
+        return None, None                                   # derives from BaseException only: nothing is registered that matches
+    if a in OWN_BEH:
+        who, beh = a, OWN_BEH[a]                            # a handler for the very class: most specific
+    else:
+        key = 'E' if a in ('http', 'notfound', 'nomethod') else 'S' if a == 'status' else 'X'
+        if key not in table:
+            return None, RAISED_STATUS[a]                   # falcon's default handler for HTTPError / HTTPStatus / Exception
+        who, beh = key, table[key]
+    if beh == 'same':
+        # `raise ex`: an HTTPError / HTTPStatus is used to update the response like any other one a handler raises; anything else propagates
+        return who, (RAISED_STATUS[a] if a in ('http', 'notfound', 'nomethod', 'status') else None)
+    return who, BEH_STATUS.get(beh)                         # 'plain': None
+
+
 def spec(case):
     """Independent rendering of the property statement.  Returns (trace, final status | None, escaped)."""
     comps, hooks, target, indep = case['comps'], case['hooks'], case['target'], case['independent']
     tr = []
     st = {'complete': False, 'raised': False, 'status': 200}
 
+    def raised(label, a):
+        st['raised'] = True
+        who, status = dispatch(case, a)
+        if who is not None:
+            tr.append('h:' + who + '@' + label)     # the handler found for that error is invoked right away, with that error - once
+        if status is None:
+            raise _Escape()                     # what the handler raises (not HTTPError/HTTPStatus) / an error without handler goes to the server
+        st['status'] = status
+
     def site(label, a):
         tr.append(label)
         if a == 'complete':
             st['complete'] = True
         elif a in RAISES:
-            st['raised'] = True
-            if a in CUSTOM:
-                tr.append('h:' + a + '@' + label)   # the handler registered for that error is invoked right away, with that error
-            if a in ESCAPING:
-                raise _Escape()                 # what the handler raises (not HTTPError/HTTPStatus) / an error without handler goes to the server
-            st['status'] = RAISES[a]
+            raised(label, a)
             return True
         return False
     try:
@@ -212,9 +293,9 @@ def spec(case):
             # the responder only if nothing completed or raised
             if not st['complete'] and not st['raised']:
                 if target == 'none':
-                    st['raised'] = True; st['status'] = 404
+                    raised('default', 'notfound')       # falcon's own responder raises HTTPNotFound: an HTTPError like any other
                 elif target == 'nomethod':
-                    st['raised'] = True; st['status'] = 405
+                    raised('default', 'nomethod')
                 else:
                     befores = [(k, a) for k, (kind, a) in enumerate(hooks) if kind == 'before']   # outermost first
                     afters = [(k, a) for k, (kind, a) in enumerate(hooks) if kind == 'after']
@@ -252,7 +333,9 @@ def _build(case, trace, box=None):
     class AppHH(Exception): pass
     class AppHS(Exception): pass
     class AppHE(Exception): pass
-    excs = {'app_h': AppH, 'app_d': AppD, 'app_hh': AppHH, 'app_hs': AppHS, 'app_he': AppHE}
+    class AppHR(Exception): pass
+    excs = {'app_h': AppH, 'app_d': AppD, 'app_hh': AppHH, 'app_hs': AppHS, 'app_he': AppHE, 'app_hr': AppHR}
+    table = case.get('handlers') or {}
 
     def act(a, resp, label):
         trace.append(label)
@@ -260,72 +343,94 @@ def _build(case, trace, box=None):
             box['resp'] = resp
         if a == 'complete':
             resp.complete = True
-        elif a == 'http':
-            raise falcon.HTTPForbidden()
-        elif a == 'status':
-            raise falcon.HTTPStatus(202)
-        elif a == 'base':
-            raise _BaseOnly(label)
-        elif a in excs:
-            raise excs[a](label)
+        elif a in RAISES:
+            e = falcon.HTTPForbidden() if a == 'http' else falcon.HTTPStatus(202) if a == 'status' else _BaseOnly(label) if a == 'base' else excs[a](label)
+            e.c03_site = label          # where it was raised (what falcon's own 404 / 405 responder raises has no such mark)
+            raise e
 
-    def handler_body(name, resp, ex):
-        trace.append('h:' + name + '@' + str(ex.args[0]))
+    def handler_body(name, beh, resp, ex):
+        """the handler registered under `name` (an application class, or S / E / X = HTTPStatus / HTTPError / Exception) with behaviour `beh`"""
+        trace.append('h:' + name + '@' + getattr(ex, 'c03_site', 'default'))
         if box is not None:
             box['resp'] = resp
-        if name in hcomplete:
+        # `hcomplete` names the handler behaviours that execute resp.complete = True, by the application class whose handler has that behaviour
+        # (re-raising an HTTPError / HTTPStatus: never; re-raising anything else counts as raising a plain exception)
+        hb = {'sets': 'app_h', 'http': 'app_hh', 'status': 'app_hs', 'plain': 'app_he',
+              'same': None if isinstance(ex, (falcon.HTTPError, falcon.HTTPStatus)) else 'app_he'}[beh]
+        if hb in hcomplete:
             resp.complete = True
-        if name == 'app_h':
+        if beh == 'sets':
             resp.status = 418
-        elif name == 'app_hh':
+        elif beh == 'http':
             raise falcon.HTTPConflict()
-        elif name == 'app_hs':
+        elif beh == 'status':
             raise falcon.HTTPStatus(299)
-        elif name == 'app_he':
+        elif beh == 'same':
+            raise ex
+        elif beh == 'plain':
             raise RuntimeError('raised inside the error handler')
 
-    def mkhandler(name):
+    def mkhandler(name, beh):
         if asgi:
             async def h(req, resp, ex, params):
-                handler_body(name, resp, ex)
+                handler_body(name, beh, resp, ex)
         else:
             def h(req, resp, ex, params):
-                handler_body(name, resp, ex)
+                handler_body(name, beh, resp, ex)
         return h
 
     def component(i, c):
         d = {}
         variant = c.get('variant', 0)
+        spell = c.get('spell') or {}
 
-        def add(name, fn_sync, fn_async):
+        def add(m, name, fn_sync, fn_async):
+            # the SPELLING of this method (per method: c['spell'][m]; else the component-wide c['variant']):
+            #   ASGI  0 plain coroutine `name` | 1 `name_async` + a sync function under `name` | 2 `name_async` alone |
+            #         3 `name_async` + a coroutine under `name` (documented: the *_async one is the ASGI version)
+            #   WSGI  0 / 2 plain sync `name` | 1 / 3 plain sync `name` + a coroutine `name_async` (its ASGI version: ignored)
+            sp = spell.get(m, variant)
             if asgi:
-                if variant == 1:
+                if sp == 1:
                     d[name + '_async'] = fn_async
                     d[name] = lambda self, *a, **k: trace.append('WRONG-sync-twin:' + name)
-                elif variant == 2:
+                elif sp == 2:
                     d[name + '_async'] = fn_async                     # only the *_async spelling, no sync twin
+                elif sp == 3:
+                    d[name + '_async'] = fn_async
+                    async def ctwin(self, *a, **k):
+                        trace.append('WRONG-plain-coroutine-twin:' + name)
+                    d[name] = ctwin
                 else:
                     d[name] = fn_async
             else:
                 d[name] = fn_sync
-                if variant == 1:
+                if sp in (1, 3):
                     async def twin(self, *a, **k):
                         trace.append('WRONG-async-twin:' + name)
                     d[name + '_async'] = twin
         if c['req'] is not None:
             def rq(self, req, resp, a=c['req']): act(a, resp, f'req:{i}')
             async def arq(self, req, resp, a=c['req']): act(a, resp, f'req:{i}')
-            add('process_request', rq, arq)
+            add('req', 'process_request', rq, arq)
         if c['rsrc'] is not None:
             def rs(self, req, resp, resource, params, a=c['rsrc']): act(a, resp, f'rsrc:{i}')
             async def ars(self, req, resp, resource, params, a=c['rsrc']): act(a, resp, f'rsrc:{i}')
-            add('process_resource', rs, ars)
+            add('rsrc', 'process_resource', rs, ars)
         if c['resp'] is not None:
             def rp(self, req, resp, resource, req_succeeded, a=c['resp']):
                 act(a, resp, f'resp:{i}:{str(resource is not None).lower()}:{str(req_succeeded is True).lower()}')
             async def arp(self, req, resp, resource, req_succeeded, a=c['resp']):
                 act(a, resp, f'resp:{i}:{str(resource is not None).lower()}:{str(req_succeeded is True).lower()}')
-            add('process_response', rp, arp)
+            add('resp', 'process_response', rp, arp)
+        if not asgi:
+            # WSGI: a method the component does NOT have for WSGI, but whose ASGI version `name_async` it has (a dual component that
+            # serves that phase on ASGI only): still not a method of the WSGI stack
+            for m in c.get('ghost', ()):
+                if c[m] is None:
+                    async def ghost(self, *a, _n=PNAME[m], **k):
+                        trace.append('WRONG-async-only-method:' + _n)
+                    d[PNAME[m] + '_async'] = ghost
         # lifespan / WebSocket methods of the same component (ASGI: coroutines, as falcon requires; WSGI: inert attributes, sync or async).
         # In an HTTP request none of them may be called: their labels would show up in the trace.
         ex = c.get('extras') or {}
@@ -346,8 +451,13 @@ def _build(case, trace, box=None):
 
     comps = [component(i, c) for i, c in enumerate(case['comps'])]
     app = (falcon.asgi.App if asgi else falcon.App)(middleware=comps, independent_middleware=case['independent'])
-    for name in CUSTOM:
-        app.add_error_handler(excs[name], mkhandler(name))
+    for name in CUSTOM_ALL:
+        app.add_error_handler(excs[name], mkhandler(name, OWN_BEH[name]))
+    # the registration table: the application's own handlers for HTTPStatus / HTTPError / Exception themselves (falcon documents:
+    # "error handlers may be registered for any exception type, including HTTPError or HTTPStatus"; they replace the default ones)
+    for key, cls in (('S', falcon.HTTPStatus), ('E', falcon.HTTPError), ('X', Exception)):
+        if key in table:
+            app.add_error_handler(cls, mkhandler(key, table[key]))
 
     target = case['target']
     if target in ('route', 'nomethod'):
@@ -443,8 +553,9 @@ def _model_line(case):
     def a1(a):
         return m.get(a, 'x')
     acts = [c[k] for c in case['comps'] for k in METHS] + [case['responder']] + [a for _, a in case['hooks']]
-    if any(a in ESCAPING for a in acts):
-        return None
+    acts += {'none': ['notfound'], 'nomethod': ['nomethod']}.get(case['target'], [])      # what falcon's own responder raises
+    if any(dispatch(case, a)[1] is None for a in acts if a in RAISES or a in ('notfound', 'nomethod')):
+        return None             # some raise is not handled under this registration table (Pl.run has the one handled raise)
     # the hook-wrapped responder is one responder for Pl.run: it raises if any of its parts raises first, else completes if any part does
     comp = 'r'
     if case['target'] in ('route',) and case['hooks']:
@@ -528,6 +639,40 @@ def _modelh_view(trace, r, complete):
     return (' '.join(out) + ' | ' + ('escaped' if r.escaped else f'responded:{r.status}') + ' | complete:' + str(bool(complete)).lower())
 
 
+def _tabled(case):
+    """the case needs the alphabet of pgdriver: a registration table, or an application class whose own handler re-raises"""
+    return bool(case.get('handlers')) or 'app_hr' in [c[k] for c in case['comps'] for k in METHS] + [case['responder']] + [a for _, a in case['hooks']]
+
+
+def _modelt_line(case):
+    """The case as input of Pg.run (pgdriver `runt`): the line of `runh` + the registration table (what the handlers registered for
+    HTTPStatus, HTTPError, Exception do; `-` = falcon's default one stays); action letters name exception CLASSES."""
+    t = {'route': 'r', 'nomethod': 'm', 'sink': 's', 'none': 'n'}[case['target']]
+    hooks = case['hooks'] if case['target'] == 'route' else []
+    hs = ','.join(('b' if kind == 'before' else 'a') + LETTER[a] for kind, a in hooks) or '-'
+    hc = ''.join(LETTER[n] for n in CUSTOM if n in case.get('hcomplete', ())) or '-'
+    table = case.get('handlers') or {}
+    tb = ''.join(BEH_LETTER[table[k]] if k in table else '-' for k in TABLE_KEYS)
+    return (f"runt {int(case['independent'])} {t} {LETTER[case['responder']]} {hc} {case.get('class_hooks', 0) if hooks else 0} {hs} {tb} "
+            + ' '.join(','.join(LETTER[c[k]] for k in METHS) for c in case['comps']))
+
+
+def _modelt_view(trace, r, complete):
+    """The real observation in the reply format of `runt`: every call, every invocation of an application's handler naming WHICH one
+    (own class: its letter; TS / TE / TX: the one registered for HTTPStatus / HTTPError / Exception) and the site whose error it got."""
+    def site(lbl):
+        p = lbl.split(':')
+        return p[0] if p[0] in ('responder', 'default') else p[0] + ':' + p[1]
+    out = []
+    for t in trace:
+        if t.startswith('h:'):
+            name, _, at = t[2:].partition('@')
+            out.append(f"h:{'T' + name if name in TABLE_KEYS else LETTER[name]}@{site(at)}")
+        else:
+            out.append(t)
+    return (' '.join(out) + ' | ' + ('escaped' if r.escaped else f'responded:{r.status}') + ' | complete:' + str(bool(complete)).lower())
+
+
 def _model_view(trace):
     """The real trace in the reply format of pldriver: handler calls dropped, hooks+responder collapsed to `responder`."""
     out = []
@@ -550,7 +695,7 @@ def _hook_line(case):
 ORACLE = 'call trace (incl. process_response arguments and error-handler calls), final status and escape = documented stack discipline'
 
 
-def _execute(ctx, sess, hsess, case, via_testing=False, xsess=None, psess=None):
+def _execute(ctx, sess, hsess, case, via_testing=False, xsess=None, psess=None, tsess=None):
     from lib_appcall import call_wsgi, call_asgi, call_via_testing, Result
     trace = []
     box = {}
@@ -576,7 +721,8 @@ def _execute(ctx, sess, hsess, case, via_testing=False, xsess=None, psess=None):
     exp_tr, exp_status, exp_esc = spec(case)
     what = None
     if trace != exp_tr:
-        what = f'call trace {trace} differs from the documented discipline {exp_tr}'
+        shown = trace if len(trace) <= 60 else trace[:40] + [f'... ({len(trace)} entries in total)']
+        what = f'call trace {shown} differs from the documented discipline {exp_tr}'
     elif bool(r.escaped) != exp_esc:
         what = f'exception {"escaped to the server: %r" % (r.escaped,) if r.escaped else "did not reach the server although no handler took it (an error handler raised it, or none exists for it)"}'
     elif not exp_esc and r.status != exp_status:
@@ -588,6 +734,14 @@ def _execute(ctx, sess, hsess, case, via_testing=False, xsess=None, psess=None):
     if line is not None:
         sess.case({'case': case})
         sess.op(line, _model_view(trace))
+    tabled = _tabled(case)
+    if tsess is not None and (tabled or ctx.rng.random() < 0.12):
+        # the registration table as an input: full trace, WHICH handler is invoked, final status / escape, final resp.complete against Pg.run
+        # (cases without a table: the default table - ties Pg.resolve to the alphabet the other two sessions use)
+        tsess.case({'case': case, 'via_testing': via_testing})
+        tsess.op(_modelt_line(case), _modelt_view(trace[:400], r, box['resp'].complete if 'resp' in box else False))
+    if tabled:
+        xsess = psess = None            # pldriver / phdriver have no registration table and no re-raising handler in their alphabet
     if xsess is not None:
         xsess.case({'case': case, 'via_testing': via_testing})
         xsess.op(_modelx_line(case), _modelx_view(trace, r))
@@ -630,6 +784,31 @@ def _execute(ctx, sess, hsess, case, via_testing=False, xsess=None, psess=None):
         ctx.count('class_level_hooks_%d_layout_%s' % (min(case.get('class_hooks', 0), 1), case.get('layout', 'flat')))
     if exp_esc:
         ctx.count('escaped_no_handler' if trace and not trace[-1].startswith('h:') else 'escaped_handler_raised_plain_exception')
+    # the registration table
+    tb = case.get('handlers') or {}
+    ctx.count(f'handler_table_entries_{len(tb)}')
+    for k_, b_ in tb.items():
+        ctx.count(f"handler_table_{ {'S': 'HTTPStatus', 'E': 'HTTPError', 'X': 'Exception'}[k_] }_{b_}")
+    for t in exp_tr:
+        if t.startswith('h:'):
+            who = t[2:].partition('@')[0]
+            beh = tb[who] if who in tb else OWN_BEH[who]
+            ctx.count('handler_invoked_' + ({'S': 'for_HTTPStatus', 'E': 'for_HTTPError', 'X': 'for_Exception'}.get(who, 'for_own_class')) + '_' + beh)
+            # the handler raised (or re-raised) an HTTPStatus / HTTPError while the application has its own handler registered for that class
+            raises = {'status': 'S', 'http': 'E'}.get(beh) or ({'S': 'S', 'E': 'E'}.get(who) if beh == 'same' else None)
+            if raises in tb:
+                ctx.count('handler_raised_what_another_registered_handler_would_take_' + case['stack'])
+    # the spelling of the middleware methods, per method
+    for c in case['comps']:
+        sp = c.get('spell')
+        if sp:
+            kinds = {('plain' if sp.get(m, 0) == 0 else 'async') for m in METHS if c[m] is not None}
+            ctx.count('component_spelling_per_method_' + case['stack'] + ('_MIXED_plain_and_async' if len(kinds) == 2 else '_uniform'))
+            for m in METHS:
+                if c[m] is not None:
+                    ctx.count(f"method_spelling_{case['stack']}_{m}_{sp.get(m, 0)}")
+        if c.get('ghost') and case['stack'] == 'wsgi':
+            ctx.count('wsgi_component_with_async_only_method')
 
 
 def _mix(idx):
@@ -760,6 +939,88 @@ def _enumerated_shapes(ctx):
                                                              'responder': 'ret'}
 
 
+def _enumerated_tables(ctx, full):
+    """THE REGISTRATION TABLE: every table over {HTTPStatus, HTTPError, Exception} x {no handler of the application's (falcon's default),
+    sets, raises HTTPError, raises HTTPStatus, re-raises what it got, raises a plain exception} (216 tables) x what is raised {HTTPError,
+    HTTPStatus, an application class without handler, application classes whose own handler sets / raises HTTPError / raises HTTPStatus /
+    raises a plain exception / re-raises, falcon's own 404, falcon's own 405, nothing} x WSGI+ASGI, between two full components; the
+    raising site (process_request / process_resource of either component, the responder, a hook, process_response of either component)
+    and the middleware mode rotate by a scrambled index (thorough: every site x both modes)."""
+    idx = 0
+    i, k = ctx.shard
+    opts = [None] + BEHS
+    sites = [(0, 'req'), (1, 'req'), (0, 'rsrc'), (1, 'rsrc'), 'responder', 'hook_before', 'hook_after', (1, 'resp'), (0, 'resp')]
+    for s_ in opts:
+        for e_ in opts:
+            for x_ in opts:
+                table = {key: v for key, v in zip(TABLE_KEYS, (s_, e_, x_)) if v is not None}
+                for kind in ['http', 'status', 'app_d', 'app_h', 'app_hh', 'app_hs', 'app_he', 'app_hr', 'fw404', 'fw405', None]:
+                    for stack in ('wsgi', 'asgi'):
+                        idx += 1
+                        h = _mix(idx)
+                        variants = [(st_, ind) for st_ in sites for ind in (True, False)] if (full and kind not in ('fw404', 'fw405', None)) \
+                            else [(sites[(h // 2) % len(sites)], bool(h % 2))]
+                        for vi, (st_, indep) in enumerate(variants):
+                            if (idx + vi) % k != i:
+                                continue
+                            comps = [{m: 'ret' for m in METHS}, {m: 'ret' for m in METHS}]
+                            case = {'stack': stack, 'independent': indep, 'target': 'route', 'comps': comps, 'hooks': [], 'responder': 'ret',
+                                    'handlers': dict(table)}
+                            if kind == 'fw404':
+                                case['target'] = 'none'
+                            elif kind == 'fw405':
+                                case['target'] = 'nomethod'
+                            elif kind is not None:
+                                if st_ == 'responder':
+                                    case['responder'] = kind
+                                elif st_ == 'hook_before':
+                                    case['hooks'] = [['before', kind], ['after', 'ret']]
+                                elif st_ == 'hook_after':
+                                    case['hooks'] = [['before', 'ret'], ['after', kind]]
+                                else:
+                                    comps[st_[0]][st_[1]] = kind
+                            if case['hooks']:
+                                case['class_hooks'] = (h // 32) % 3
+                            if (h // 128) % 4 == 0:
+                                case['hcomplete'] = list(CUSTOM)
+                            yield (0 if kind is None else 1), case
+
+
+def _enumerated_spellings(ctx):
+    """THE SPELLING OF EACH METHOD, independently per method, inside one component.  ASGI: each of process_request / process_resource /
+    process_response is {absent, a plain coroutine, `*_async` next to a sync function of the plain name, `*_async` alone, `*_async` next to
+    a plain coroutine (the *_async one is the ASGI version)}: all 124 non-empty combinations.  WSGI: {absent, absent but with an `*_async`
+    version (ignored), plain sync, plain sync next to an `*_async` coroutine}: all 56 combinations with at least one WSGI method.  Alone and
+    between two full components x both modes x {route, unrouted} x the fault-free run and a raise at each of its methods."""
+    import itertools
+    idx = 0
+    i, k = ctx.shard
+    for stack in ('asgi', 'wsgi'):
+        states = [None, 0, 1, 2, 3] if stack == 'asgi' else [None, 'ghost', 0, 1]
+        for combo in itertools.product(states, repeat=3):
+            present = [m for m, v in zip(METHS, combo) if isinstance(v, int)]
+            if not present:
+                continue
+            for pos in ('alone', 'middle'):
+                for indep in (True, False):
+                    for target in ('route', 'none'):
+                        for pl in [None] + present:
+                            idx += 1
+                            if idx % k != i:
+                                continue
+                            comp = {m: ('ret' if isinstance(v, int) else None) for m, v in zip(METHS, combo)}
+                            comp['spell'] = {m: v for m, v in zip(METHS, combo) if isinstance(v, int)}
+                            ghost = [m for m, v in zip(METHS, combo) if v == 'ghost']
+                            if ghost:
+                                comp['ghost'] = ghost
+                            if pl is not None:
+                                comp[pl] = 'http'
+                            full = {m: 'ret' for m in METHS}
+                            comps = [comp] if pos == 'alone' else [dict(full), comp, dict(full)]
+                            yield (0 if pl is None else 1), {'stack': stack, 'independent': indep, 'target': target, 'comps': comps, 'hooks': [],
+                                                             'responder': 'ret'}
+
+
 LAYOUTS = ['flat', 'suffix', 'inherited', 'inherited_suffix', 'grandparent', 'mixin', 'base_decorated', 'split_decorated']
 
 
@@ -770,8 +1031,15 @@ def _random_case(rnd):
         c = {m: ('ret' if rnd.random() < 0.6 else None) for m in METHS}
         if all(v is None for v in c.values()):
             c[rnd.choice(METHS)] = 'ret'
-        if rnd.random() < 0.3:
+        r_ = rnd.random()
+        if r_ < 0.25:
             c['variant'] = rnd.choice([1, 1, 2])
+        elif r_ < 0.6:
+            # the spelling of each method on its own (on WSGI 1 / 3 = with an *_async twin); a missing method may still have an *_async version
+            c['spell'] = {m: rnd.choice([0, 0, 1, 2, 3]) for m in METHS if c[m] is not None}
+            ghost = [m for m in METHS if c[m] is None and rnd.random() < 0.3]
+            if ghost:
+                c['ghost'] = ghost
         if rnd.random() < 0.4:
             c['extras'] = {x: 'ret' for x in rnd.sample(EXTRAS, rnd.randint(1, len(EXTRAS)))}   # lifespan / WebSocket methods on the same component
         comps.append(c)
@@ -796,9 +1064,12 @@ def _random_case(rnd):
         case['layout'] = rnd.choice(LAYOUTS)
     if rnd.random() < 0.4:
         case['hcomplete'] = sorted(rnd.sample(CUSTOM, rnd.randint(1, len(CUSTOM))))   # these error handlers set resp.complete = True
+    if rnd.random() < 0.35:
+        # the registration table: the application's own handlers for HTTPStatus / HTTPError / Exception
+        case['handlers'] = {key: rnd.choice(BEHS) for key in rnd.sample(TABLE_KEYS, rnd.choice([1, 1, 2, 3]))}
     sites = [(ci, m) for ci, c in enumerate(comps) for m in METHS if c[m] is not None] + [('responder', None)] + [('hook', k) for k in range(len(hooks))]
     for (a, b) in rnd.sample(sites, min(len(sites), rnd.choice([0, 1, 1, 2, 2, 3, 4]))):
-        f = rnd.choice(FAULTS)
+        f = rnd.choice(FAULTS_T if 'handlers' in case or rnd.random() < 0.2 else FAULTS)
         if a == 'responder':
             case['responder'] = f
         elif a == 'hook':
@@ -819,6 +1090,7 @@ def run(ctx):
         for m in missing:
             VERBS.remove(m)
     _requests(ctx)
+    _prepare(ctx)
     _websocket(ctx)
     _lifespan(ctx)
 
@@ -831,24 +1103,126 @@ def _requests(ctx):
     psess = ctx.session('App.__call__ with the falcon.before/after-wrapped responder spelled out: every middleware, hook and responder call, '
                         'error-handler invocations with the site (hook included) whose error they got, handlers that set resp.complete, '
                         'final status / escape, final resp.complete (WSGI+ASGI) = Ph.run', 'phdriver')
+    tsess = ctx.session('App.__call__ + _find_error_handler + _handle_exception with the REGISTRATION TABLE of error handlers as an input (the application\'s own '
+                        'handlers for HTTPStatus / HTTPError / Exception and for its own classes; returning, raising HTTPError / HTTPStatus / a plain exception, re-raising): '
+                        'every call, WHICH handler is invoked for which site, final status / escape, final resp.complete (WSGI+ASGI) = Pg.run', 'pgdriver')
     if not ctx.searching:
         for nf, case in _enumerated(ctx, *((3, 1) if ctx.quick else (4, 2))):
-            _execute(ctx, sess, hsess, case, xsess=xsess, psess=psess)
+            _execute(ctx, sess, hsess, case, xsess=xsess, psess=psess, tsess=tsess)
             ctx.count(f'enumerated_{nf}_fault')
         for nf, case in _enumerated_hooks(ctx, 3 if ctx.quick else 4):
-            _execute(ctx, sess, hsess, case, xsess=xsess, psess=psess)
+            _execute(ctx, sess, hsess, case, xsess=xsess, psess=psess, tsess=tsess)
             ctx.count(f'enumerated_hooks_{nf}_fault')
         for nf, case in _enumerated_shapes(ctx):
-            _execute(ctx, sess, hsess, case, xsess=xsess, psess=psess)
+            _execute(ctx, sess, hsess, case, xsess=xsess, psess=psess, tsess=tsess)
             ctx.count(f'enumerated_shapes_{nf}_fault')
+        for nf, case in _enumerated_tables(ctx, not ctx.quick):
+            _execute(ctx, sess, hsess, case, xsess=xsess, psess=psess, tsess=tsess)
+            ctx.count(f'enumerated_handler_tables_{nf}_fault')
+        for nf, case in _enumerated_spellings(ctx):
+            _execute(ctx, sess, hsess, case, xsess=xsess, psess=psess, tsess=tsess)
+            ctx.count(f'enumerated_method_spellings_{nf}_fault')
     for j in range(ctx.n(16000, 100000)):
         case = _random_case(rnd)
-        _execute(ctx, sess, hsess, case, via_testing=(j % 16 == 0), xsess=xsess, psess=psess)
+        _execute(ctx, sess, hsess, case, via_testing=(j % 16 == 0), xsess=xsess, psess=psess, tsess=tsess)
         ctx.count('random')
     sess.finish()
     xsess.finish()
     psess.finish()
+    tsess.finish()
     hsess.finish()
+
+
+# ------------------------------------------------------------------ prepare_middleware: how the methods of a component are found
+
+def _prepare(ctx):
+    """falcon.app_helpers.prepare_middleware on generated component objects against Pm.run: for each of the three HTTP methods the two
+    attributes `process_x_async` / `process_x`, each absent / a coroutine function / a sync function (so also the combinations falcon
+    rejects), a lifespan / WebSocket method or not; every single component (3^6 x 2) x ASGI/WSGI x both modes, and random stacks."""
+    import itertools
+    import falcon
+    from falcon.app_helpers import prepare_middleware
+    rnd = ctx.rng
+    sess = ctx.session('falcon.app_helpers.prepare_middleware: which attribute of which component is on the request / resource / response stack, '
+                       'CompatibilityError / TypeError (ASGI+WSGI, both modes) = Pm.run', 'pgdriver')
+    KINDS = ['-', 'c', 's']
+
+    def build(spec_):
+        """spec_: (req_async, req, rsrc_async, rsrc, resp_async, resp, other) -> (component object, {function -> 'a' | 'p'})"""
+        d, which = {}, {}
+        for (name, _m), (ka, kp) in zip((('process_request', 0), ('process_resource', 1), ('process_response', 2)),
+                                        ((spec_[0], spec_[1]), (spec_[2], spec_[3]), (spec_[4], spec_[5]))):
+            for attr, kind, tag in ((name + '_async', ka, 'a'), (name, kp, 'p')):
+                if kind == 'c':
+                    async def f(self, *a, **k): pass
+                elif kind == 's':
+                    def f(self, *a, **k): pass
+                else:
+                    continue
+                d[attr] = f
+                which[f] = tag
+        if spec_[6]:
+            async def process_startup(self, scope, event): pass
+            d['process_startup'] = process_startup
+        return type('M', (), d)(), which
+
+    def one(asgi, indep, specs):
+        objs = [build(sp) for sp in specs]
+        index = {id(o): i for i, (o, _) in enumerate(objs)}
+        which = {}
+        for _, w in objs:
+            which.update(w)
+
+        def show(m):
+            return '-' if m is None else f'{index[id(m.__self__)]}:{which[m.__func__]}'
+        try:
+            rq, rs, rp = prepare_middleware([o for o, _ in objs], independent_middleware=indep, asgi=asgi)
+            if indep:
+                out_rq = ','.join(show(m) for m in rq) or '-'
+            else:
+                out_rq = ','.join(f"{index[id((a or b).__self__)]}:{'-' if a is None else which[a.__func__]}/{'-' if b is None else which[b.__func__]}" for a, b in rq) or '-'
+            got = f"req={out_rq} rsrc={','.join(show(m) for m in rs) or '-'} resp={','.join(show(m) for m in rp) or '-'}"
+        except falcon.CompatibilityError:
+            got = 'CompatibilityError'
+        except TypeError:
+            got = 'TypeError'
+        line = f"prep {int(asgi)} {int(indep)} " + ' '.join(f'{sp[0]}{sp[1]},{sp[2]}{sp[3]},{sp[4]}{sp[5]},{int(sp[6])}' for sp in specs)
+        sess.case({'asgi': asgi, 'independent': indep, 'components': [list(sp) for sp in specs]})
+        sess.op(line, got)
+        ctx.seen(('prep', line), True)
+        ctx.count('prepare_middleware_' + ('asgi' if asgi else 'wsgi') + '_' + ('accepted' if got.startswith('req=') else got))
+        mixed = [sp for sp in specs if asgi and any(sp[j] == 'c' for j in (0, 2, 4)) and any(sp[j] == '-' and sp[j + 1] == 'c' for j in (0, 2, 4))]
+        if mixed and got.startswith('req='):
+            ctx.count('prepare_middleware_asgi_component_mixing_async_and_plain_coroutine_spellings')
+
+    if not ctx.searching:
+        idx = 0
+        i, k = ctx.shard
+        for attrs in itertools.product(KINDS, repeat=6):
+            for other in (False, True):
+                for asgi in (True, False):
+                    idx += 1
+                    if idx % k != i:
+                        continue
+                    one(asgi, bool(_mix(idx) % 2), [attrs + (other,)])
+    for _ in range(ctx.n(3000, 40000)):
+        n = rnd.choice([1, 2, 2, 3, 3, 4])
+        asgi = rnd.random() < 0.6
+        specs = []
+        for _ in range(n):
+            if rnd.random() < 0.75:
+                # mostly acceptable components, so that whole stacks get built: coroutines (ASGI) / plain sync functions (WSGI) in random spellings
+                sp = []
+                for _m in range(3):
+                    if asgi:
+                        sp += rnd.choice([['-', '-'], ['-', 'c'], ['c', '-'], ['c', 's'], ['c', 'c']])
+                    else:
+                        sp += rnd.choice([['-', '-'], ['-', 's'], ['c', 's'], ['c', '-'], ['s', 's']])
+                specs.append(tuple(sp) + (rnd.random() < 0.3,))
+            else:
+                specs.append(tuple(rnd.choice(KINDS) for _ in range(6)) + (rnd.random() < 0.3,))
+        one(asgi, rnd.random() < 0.5, specs)
+    sess.finish()
 
 
 # ------------------------------------------------------------------ ASGI WebSocket handshakes: hooks around on_websocket
@@ -1116,7 +1490,9 @@ def _lifespan(ctx):
     sess.finish()
 
 
-LEVEL_TEXT = ('Machine-checked proofs (Lean 4) about a transcription of App.__call__ (shared by WSGI and ASGI) - first with one abstract raise (Pl.run), then refined with _handle_exception, '
+LEVEL_TEXT = ('[also: the registration table of error handlers (Pg: one lookup per raise by MRO, what a handler raises is composed or propagates, never dispatched again - for every table incl. custom handlers for HTTPStatus / HTTPError / Exception; '
+              'abstraction to Pe / Ph proved exact) and prepare_middleware (Pm: every stack is a function of the attributes of its own method, per component; *_async wins; acceptance iff), both tied by their own correspondences] '
+              'Machine-checked proofs (Lean 4) about a transcription of App.__call__ (shared by WSGI and ASGI) - first with one abstract raise (Pl.run), then refined with _handle_exception, '
               'error-handler invocations, exceptions that leave __call__ and the final status (Pe.run, proved to refine Pl.run) - falcon.hooks and the lifespan loop: response methods run exactly once '
               'each, bottom-up, in both middleware modes for every stack and fault placement; request/resource loops are top-down and stop at the first completion or raise; '
               'before hooks run outermost-first, after hooks innermost-first, a raise skips the rest - also inside the pipeline (Ph.run, proved to refine Pe.run: a hook\'s error is handled in the responder\'s '
